@@ -520,6 +520,26 @@ def history(g, rid=0, emphasis=None):
             L.append('search %s %s' % (a, hx(p)))
             if cl[0] is not None and r.random() < 0.5:
                 L.append('search %s %s' % (cl[0], hx(p)))      # a copy taken earlier must keep answering as it did
+    if r.random() < 0.10:
+        # a flag that must be REFRESHED: two parameter siblings (one whole-segment unconstrained, one whole-segment
+        # constrained, or the other way round), the first is deleted again, then an INLINE route through the survivor
+        if 'lower' not in regs and 'lower2' not in regs:
+            L.append('cons %s lower' % a)
+        base = [('s', b'/'), ('s', r.choice(vocab))] if r.random() < 0.5 else []
+        kind = r.choice(['d', 'd', 'w'])
+        tailx = [('s', b'/'), ('s', b'x')] if (kind == 'w' or r.random() < 0.3) else []
+        taily = [('s', b'/'), ('s', b'y')] if (kind == 'w' or r.random() < 0.3) else []
+        c1, c2 = r.choice([(None, b'lower'), (b'lower', None)])
+        t1 = base + [('s', b'/'), (kind, b'p', c1)] + tailx
+        t2 = base + [('s', b'/'), (kind, b'q', c2)] + taily
+        t3 = base + [('s', b'/'), (kind, b'q', c2), ('s', r.choice([b'.json', b'.ext', b'-v2']))]
+        for it in (t1, t2):
+            L.append('insert %s %s %d' % (a, hx(g.render(it)), data)); data += 1
+        L.append('delete %s %s' % (a, hx(g.render(t1))))
+        L.append('insert %s %s %d' % (a, hx(g.render(t3)), data)); data += 1
+        live += [t2, t3]
+        paths = paths + g.paths_for([t2, t3], 4)
+        searches()
     nops = r.choice([3, 4, 5, 6, 7, 8])
     for _ in range(nops):
         k = r.random()
